@@ -407,6 +407,7 @@ def run(ctx):
         for ln in range(sc["start"], sc["end"] + 1):
             by_line[ln] = sc
     bad_scen = set()
+    groups = {}
     for rj in rej:
         sc = by_line[rj["line"]]
         bad_scen.add(sc["start"])
@@ -424,11 +425,19 @@ def run(ctx):
         else:
             sig = "C12:%s%s" % (why, sfx)
         muts = [(x["op"], "%s%d" % (x["f"]["k"], x["f"]["i"]), x["res"]) for x in trace[sc["start"]:sc["end"] - 1]]
-        ctx.violation(sig, {
+        groups.setdefault(sig, []).append({
             "config": cfg, "run": sc["run"], "point": sc["point"], "why": why, "expected": exp,
-            "mutations_before": muts, "reported": trace[sc["end"] - 1]["reported"],
+            "mutations": muts, "rejected_event": {k: v for k, v in e.items() if k != "view"},
+            "reported": trace[sc["end"] - 1]["reported"],
             "observed_view": trace[sc["end"] - 1]["view"], "surviving_files": sc["r"]["files"],
             "loader": {k: v for k, v in sc["r"]["view"].items() if k in ("bad", "crashes", "files")}})
+    # one violation per signature: the smallest instance in full, the others by reference
+    for sig in sorted(groups):
+        occ = sorted(groups[sig], key=lambda o: (o["config"]["k"] + o["config"]["m"], len(o["mutations"])))
+        d = dict(occ[0])
+        d["occurrences"] = len(occ)
+        d["also_at"] = [[cname(o["config"]), o["run"], o["point"]] for o in occ[1:12]]
+        ctx.violation(sig, d)
     ctx.traces_validated = len(scen) - len(bad_scen)
 
     # non-trivial: the surviving directory is neither the old nor the new directory
